@@ -184,7 +184,9 @@ fn jobs_sweep(tier: Tier) -> Vec<Job> {
                 if n >= 2 {
                     let is_w = |t: usize| ["write", "setbal", "rwr", "store("].iter().any(|k| templates[t].label.contains(k));
                     let is_r = |t: usize| ["read", "probe", "rwr", "halt", "static"].iter().any(|k| templates[t].label.contains(k));
-                    let deep = n == 2 && is_w(seq[0]) && seq[0] != seq[1] && is_r(seq[1]);
+                    let facade_w = |t: usize| is_w(t) && !templates[t].label.starts_with("store(");
+                    let facade_r = |t: usize| ["pc.read", "rwr", "read-halt", "probe("].iter().any(|k| templates[t].label.contains(k));
+                    let deep = n == 2 && facade_w(seq[0]) && seq[0] != seq[1] && is_r(seq[1]) && facade_r(seq[1]);
                     v.push(pipeline_job("c11-pc", &case, &RunCfg::parallel(2), COARSE, if deep { 2 } else { 1 }, false));
                 }
                 v.push(pipeline_job("c11-pc", &case, &RunCfg::sequential(), COARSE, 0, false));
